@@ -80,6 +80,48 @@ func TestVerifC20(t *testing.T) {
 	h := vh.Open(t, "C20")
 	defer h.Done()
 
+	// ---- purity: the same entropy used for several lengths in a row (growing, shrinking, lengths that are and are not
+	// multiples of 8, other entropies in between): every call must still equal the model -----------------------------------
+	np := h.N(3000, 60000)
+	for ci := 0; ci < np; ci++ {
+		if !h.Mine("pure", ci) {
+			continue
+		}
+		h.CaseLight("pure", ci)
+		r := h.Rng("pure", ci)
+		var es [2][32]byte
+		copy(es[0][:], r.Bytes(32))
+		copy(es[1][:], r.Bytes(32))
+		var trace []int
+		for k, n := 0, 2+r.IntN(6); k < n; k++ {
+			l := []int{0, 1, 5, 6, 7, 8, 9, 15, 16, 17, 20, 50, 341, 1023}[r.IntN(14)]
+			if r.IntN(3) == 0 {
+				l = r.IntN(200)
+			}
+			e := es[0]
+			if r.IntN(5) == 0 {
+				e = es[1]
+			}
+			in := make([]uint32, l)
+			for i := range in {
+				in[i] = uint32(i)
+			}
+			trace = append(trace, l)
+			want := modelShuffle(in, e)
+			var got []types.U32
+			if p, msg, st := vh.Guard(func() { got = shuffle.Shuffle(toU32(in), types.OpaqueHash(e)) }); p {
+				h.Viol("pure", ci, "", "shuffle-panic", map[string]any{"lengths_so_far": fmt.Sprint(trace), "panic": msg, "stack": st})
+				break
+			}
+			if !eqU32(got, want) {
+				h.Viol("pure", ci, "", "shuffle-differs-from-model-after-earlier-calls-with-the-same-entropy", map[string]any{"lengths_so_far": fmt.Sprint(trace), "call": k})
+				break
+			}
+			h.Inc("shuffles_in_call_sequences")
+		}
+		h.Distinct("pure", fmt.Sprint(trace))
+	}
+
 	// ---- shuffle: every length 0..1100 x entropies ------------------------------------------
 	reps := h.N(3, 10)
 	for l := 0; l <= 1100; l++ {
